@@ -84,6 +84,10 @@ def cases(tier, seed):
         for k in (rng.sample(nosc, min(3, len(nosc))) if nosc else []):
             out.append(dict(kind='exp-sympy-assumptions', cfg=cfg, ka=[k]))
             out.append(dict(kind='exp-numpy-scalars', cfg=cfg, ka=[k]))
+        # norm / normalized on CONCRETE python floats and numpy scalars (the type-dispatching numeric paths), every sign of normsq
+        for k in (rng.sample(nosc, min(4, len(nosc))) if nosc else []):
+            out.append(dict(kind='norm-concrete', cfg=cfg, ka=[k]))
+            out.append(dict(kind='norm-concrete', cfg=cfg, ka=[0, k]))
         for _ in range(2 if tier == 'quick' else 12):
             if len(nosc) >= 2:
                 out.append(dict(kind='exp', cfg=cfg, ka=rng.sample(nosc, 2), fork=True))
@@ -111,6 +115,8 @@ def run_case(desc, V):
         return _run_exp(desc, V)
     if kind in ('exp-sympy-assumptions', 'exp-numpy-scalars'):
         return _run_exp_concrete(desc, V)
+    if kind == 'norm-concrete':
+        return _run_norm_concrete(desc, V)
     alg = get_alg(desc['cfg'])
     km = kmap(alg)
     x = mv(alg, V, 'x', desc['ka'])
@@ -202,6 +208,49 @@ def run_case(desc, V):
         claims += mv_eq_claims('normalized*norm=x', u * n, X)
         return claims
     raise ValueError(kind)
+
+
+def _run_norm_concrete(desc, V):
+    """norm()**2 = normsq and normalized().normsq() = 1 on concrete floats / numpy scalars (complex arithmetic when normsq < 0):
+    sampling on concrete values of the numeric type dispatch, stated as such."""
+    import numpy as np
+    from ..core import concrete_equal
+    alg = get_alg(desc['cfg'])
+    claims = [Note('nontrivial', '')]
+    ka = tuple(desc['ka'])
+    for tname, conv in (('float', float), ('int', int), ('np.float64', np.float64), ('np.float32', np.float32)):
+        for vals in ([3.0, 2.0], [1.0, 2.0], [0.5, 1.5], [2.0, 1.0]):
+            if tname == 'int' and any(v != int(v) for v in vals):
+                continue
+            vs = [conv(v) for v in vals[-len(ka):]]
+            x = alg.multivector(keys=ka, values=vs)
+            try:
+                ns = x.normsq()
+            except Exception:
+                continue
+            NS = coeffs(ns)
+            if set(NS) - {0} and any(abs(complex(v)) > 1e-12 for k_, v in NS.items() if k_ != 0):
+                continue                    # x*~x is not a scalar: the Study-number domain of C19's sqrt, covered symbolically
+            n0 = complex(NS.get(0, 0))
+            if abs(n0) < 1e-12:
+                continue                    # null element (open finding norm|null-element)
+            if n0.real < 0 and tname.startswith('np.'):
+                continue                    # numpy's real square root of a negative number is nan by numpy's own rules: not demanded
+            fkey = f'norm|concrete|{tname}|{"negative" if n0.real < 0 else "positive"}-normsq'
+            try:
+                n = x.norm()
+                u = x.normalized()
+            except Exception as e:  # noqa
+                claims.append(Fail(f'norm-raises[{tname},{vals}]', f'norm()/normalized() of {dict(zip(ka, vs))} raised {type(e).__name__}: {e}', fkey + '|raises'))
+                continue
+            nn = coeffs(n * n)
+            if not concrete_equal(nn.get(0, 0), n0, tol=1e-5) or any(abs(complex(v)) > 1e-6 for k_, v in nn.items() if k_ != 0):
+                claims.append(Fail(f'norm^2[{tname},{vals}]', f'norm()**2 = {nn} but normsq = {NS} for {dict(zip(ka, vs))}', fkey))
+            un = coeffs(u.normsq())
+            if not concrete_equal(un.get(0, 0), 1, tol=1e-5) or any(abs(complex(v)) > 1e-6 for k_, v in un.items() if k_ != 0):
+                claims.append(Fail(f'normalized.normsq[{tname},{vals}]', f'normalized().normsq() = {un}, expected 1, for {dict(zip(ka, vs))}', fkey))
+    claims.append(Eq('reached', 1, 1))
+    return claims
 
 
 def _run_exp_concrete(desc, V):
